@@ -201,3 +201,31 @@ def _nstmts(lines):
             in_multi = True
         n += 1
     return n
+
+
+def eval_body(task):
+    """Worker: run preamble + body text; returns (errs, sigs, exc, status, stdout)."""
+    ftype, fname, body = task[:3]
+    pre, npre, pretext = pre_tokens(ftype, fname)
+    r = impl.run_text(fname, body, pre_tokens=pre, line0=npre + 1)
+    errs = [d for d in r.diags if d[0] == "Error"]
+    sigs = diag_signatures(pretext + body, fname, errs) if errs else []
+    return errs, sigs, r.exc, r.status, r.stdout
+
+
+def cli_text(task):
+    """Worker: store `text` under `fname` in a scratch directory and run main() in process on it.
+    task = (fname, text, argv_extra) -> dict(code, stdout, stderr, exc)"""
+    import os
+    import shutil
+    import tempfile
+
+    fname, text, extra = task
+    d = tempfile.mkdtemp(prefix="mcverif_")
+    try:
+        path = os.path.join(d, fname)
+        with open(path, "w") as f:
+            f.write(text)
+        return impl.run_cli(list(extra) + [path])
+    finally:
+        shutil.rmtree(d, ignore_errors=True)
